@@ -49,7 +49,11 @@ def run(chk, scratch):
         if v["valid"] > 1 or v["id"] >= 1000:
             chk.nontrivial += 1
         for s in v["viol"]:
-            ctx = [e for e in events if e.get("id") == v["id"]][:80] if v["id"] < 1000 else [events[v["id"] - 1001]]
+            ctx = [e for e in events if e.get("id") == v["id"] and e.get("op") != "Ctl"] if v["id"] < 1000 else [events[v["id"] - 1001]]
+            if v["id"] < 1000:
+                died = [e["t"] for e in ctx if e.get("op") == "Died"]
+                if died:   # keep what matters: everything from shortly before the death on
+                    ctx = [e for e in ctx if e.get("op") in ("Start", "Died", "Recover") or max(e.get("t", 0), e.get("start", 0)) > died[0] - 300000]
             chk.violation(s, "round/death point %d: %s" % (v["id"], s), {"events": ctx})
     chk.cov["polls_valid"] = valid
     chk.cov["discarded_overloaded"] = discarded
